@@ -167,7 +167,7 @@ def replay(args):
         seq[0] += 1
         ev.update({"tid": tid, "seq": seq[0]})
         for k, d in (("pos", 0), ("cache", ""), ("mod", ""), ("ndone", 0), ("pending", []), ("tops", []), ("children", {}), ("np", 0),
-                     ("kindof", []), ("raised", False), ("strict", False)):
+                     ("kindof", []), ("raised", False), ("strict", False), ("caches", []), ("elab", False)):
             ev.setdefault(k, d)
         events.append(ev)
 
@@ -175,7 +175,8 @@ def replay(args):
         ps = state["passes"]
         sink = ET.Sink([p.__name__ for p in ps])
         _verif.set_sink(sink)
-        emit({"ev": "call_begin", "tops": tops, "children": shape_children, "np": len(ps), "kindof": [passlist.kind_of(p) for p in ps], "strict": False})
+        emit({"ev": "call_begin", "tops": tops, "children": shape_children, "np": len(ps), "kindof": [passlist.kind_of(p) for p in ps], "strict": False,
+              "caches": [passlist.cache_owner(p) for p in ps]})
         raised, dg, sig = ET.do_call(h, "to_proto", [modset[t] for t in tops])
         _verif.set_sink(None)
         for e in sink.events:
@@ -206,7 +207,8 @@ def replay(args):
         ps = state["passes"]
         sink = ET.Sink([p.__name__ for p in ps])
         _verif.set_sink(sink)
-        emit({"ev": "call_begin", "tops": ["XA", first_top], "children": dict(ch, **xch), "np": len(ps), "kindof": [passlist.kind_of(p) for p in ps], "strict": False})
+        emit({"ev": "call_begin", "tops": ["XA", first_top], "children": dict(ch, **xch), "np": len(ps), "kindof": [passlist.kind_of(p) for p in ps], "strict": False,
+              "caches": [passlist.cache_owner(p) for p in ps]})
         try:
             sample_pdk.compile([xmods["XA"], mods[first_top]])
             craised = False
@@ -218,18 +220,32 @@ def replay(args):
         emit({"ev": "call_end", "raised": craised})
     call("first", [first_top], mods, D, True, ch)
     call("unrelated", ["XA"], xmods, D2, False, xch)
+    # in every second history the designer now edits a module the failed call went through but did not finish (it does not contain the offending
+    # module): a faulty instance is added on the real object.  Whatever is exported from here on must be what a fresh process gives for the
+    # EDITED design - for the edited module itself: a refusal
+    editX = None
+    edit_targets = [t for t in sorted(ch) if t != first_top and m not in closure(shape, [t]) and t in closure(shape, [first_top])
+                    and mods[t]._elaborated is None and mods[t].get("w2") is not None]
+    if tid % 2 and edit_targets and fault != "cycle":
+        X = edit_targets[(tid // 2) % len(edit_targets)]
+        Dx = plant(D, X, "width", first_top=first_top)
+        Dx["mods"][X]["insts"][-1]["n"] = "edited_in"
+        leaf = bld.leaf("L1")
+        mods[X].add(leaf(a=mods[X].get("w2")), name="edited_in")        # a 2-bit signal on a 1-bit port
+        editX, D = X, Dx
+        call("edited_after_failure", [X], mods, D, False, ch)
     # other tops of the same DAG
     for t in sorted(ch):
         if t == first_top:
             continue
-        tainted = m in closure(shape, [t])
+        tainted = m in closure(shape, [t]) or (editX is not None and editX in closure(shape, [t]))
         call("sharing_with" if tainted else "sharing_without", [t], mods, D, tainted, ch)
     call("retry", [first_top], mods, D, True, ch)
     if custom:
         h.elab.reset_elaborator()
         state["passes"] = list(default)
         call("retry_default_elaborator", [first_top], mods, D, True, ch)
-    if fault and fault not in ("cycle", "exportparam"):
+    if fault and fault not in ("cycle", "exportparam") and editX is None:
         # repair the planted fault on the real objects, then retry
         try:
             bad = mods[m].get("bad")
@@ -496,7 +512,7 @@ def run(tier, seed, replay_file=None):
             o.violations.append(Violation(clause="contract:" + v2[i][1], case=case, features=feats, detail=cs))
     o.distinct_nontrivial = nt
     o.required_cover = ["first_raised", "unrelated_returned", "sharing_without_returned", "retry_raised", "source_fault", "source_inject_before", "source_inject_in",
-                        "source_generator", "repair_retry_raised", "fault_cycle", "fault_exportparam", "via_compile", "event_circular", "event_refail", "event_fail"]
+                        "source_generator", "repair_retry_raised", "fault_cycle", "fault_exportparam", "via_compile", "edited_after_failure_raised", "event_circular", "event_refail", "event_fail"]
     for i in rnd.sample(range(len(allcases)), 2):
         o.samples.append({"case": allcases[i], "calls": [{k: c[k] for k in ("label", "raised", "sig", "fresh_raised", "tainted")} for c in calls[i]], "verdict": v2[i]})
     return o
